@@ -3,6 +3,7 @@
 package cl
 
 import (
+	"math/big"
 	"reflect"
 
 	"github.com/ohler55/slip"
@@ -52,8 +53,7 @@ func (f *Gethash) Call(s *slip.Scope, args slip.List, depth int) (result slip.Ob
 	if !ok {
 		slip.TypePanic(s, depth, "hash-table", args[1], "hash-table")
 	}
-	checkHashKey(s, depth, args[0])
-	v, has := ht[args[0]]
+	v, has := ht[hashKey(s, depth, ht, args[0])]
 	var ho slip.Object
 	if has {
 		ho = slip.True
@@ -68,8 +68,67 @@ func (f *Gethash) Place(s *slip.Scope, args slip.List, value slip.Object) {
 	if !ok {
 		slip.TypePanic(s, 0, "hash-table", args[1], "hash-table")
 	}
-	checkHashKey(s, 0, args[0])
-	ht[args[0]] = value
+	ht[hashKey(s, 0, ht, args[0])] = value
+}
+
+// hashKey returns the key to use for key in the table. Keys are the same if
+// they are eql so a number is the same key as any number of the same value
+// whatever the types are. A number that has a fixnum value is keyed by that
+// fixnum so a fixnum is always found directly. Any other number is searched
+// for among the keys of the table and is used as is when none is eql to it.
+func hashKey(s *slip.Scope, depth int, ht slip.HashTable, key slip.Object) slip.Object {
+	checkHashKey(s, depth, key)
+	if _, ok := key.(slip.Number); !ok {
+		return key
+	}
+	if _, ok := key.(slip.Fixnum); ok {
+		return key
+	}
+	num, isFix := fixnumValue(key)
+	if isFix {
+		if _, has := ht[num]; has {
+			return num
+		}
+	}
+	for k := range ht {
+		if _, ok := k.(slip.Number); ok && same(k, key) != nil {
+			return k
+		}
+	}
+	if isFix {
+		return num
+	}
+	return key
+}
+
+// fixnumValue returns the fixnum that has exactly the value of num if there
+// is one.
+func fixnumValue(num slip.Object) (slip.Fixnum, bool) {
+	switch tn := num.(type) {
+	case slip.Integer:
+		if tn.IsInt64() {
+			return slip.Fixnum(tn.Int64()), true
+		}
+	case slip.SingleFloat:
+		return fixnumValue(slip.DoubleFloat(tn))
+	case slip.DoubleFloat:
+		if -0x1p63 <= tn && tn < 0x1p63 && slip.DoubleFloat(slip.Fixnum(tn)) == tn {
+			return slip.Fixnum(tn), true
+		}
+	case *slip.LongFloat:
+		if i, acc := (*big.Float)(tn).Int64(); acc == big.Exact {
+			return slip.Fixnum(i), true
+		}
+	case *slip.Ratio:
+		if rat := (*big.Rat)(tn); rat.IsInt() && rat.Num().IsInt64() {
+			return slip.Fixnum(rat.Num().Int64()), true
+		}
+	case slip.Complex:
+		if imag(tn) == 0.0 {
+			return fixnumValue(slip.DoubleFloat(real(tn)))
+		}
+	}
+	return 0, false
 }
 
 // checkHashKey raises a type-error for keys the table can not hold (lists,
